@@ -170,6 +170,9 @@ def check(ax, case, rec):
             vals[2] = 0.0
         rec.label(f"components={ncomp}")
         scale = c["load"] + 2.5
+        if c["lseed"] % 5 == 0:
+            scale = 0.0  # edge of the documented domain: a switched-off load (e.g. the first value of a density / scale ramp)
+            rec.label("scale=0")
         first = vals if not c["preload"] else rng.uniform(-1, 1, ncomp) * np.array([1, 1, 0 if axi else 1])[:ncomp]
         if ax == "gravity":
             it = fem.SolidBodyGravity(fc, gravity=first.tolist(), density=scale)
@@ -195,7 +198,7 @@ def check(ax, case, rec):
         V = volume_of(region, fc.fields[0] if axi else None)
         ref = scale * vals[: fc.fields[0].dim] * V
         rec.nontrivial = mesh.ncells >= 2
-        rec.close("resultant=scale*values*V", float(np.abs(f.sum(0) - ref).max()) / max(float(np.abs(ref).max()), 1e-12), 1e-11)
+        rec.close("resultant=scale*values*V", float(np.abs(f.sum(0) - ref).max()) / max(float(np.abs(ref).max()), 1e-12 if scale else float(np.abs(vals).max()) * V), 1e-11)
         rec.close("other-fields-zero", float(np.abs(r[n0:]).max()) if r.size > n0 else 0.0, 0.0)
         rec.require("vector-length", r.size == sum(fc.fieldsizes), [r.size, sum(fc.fieldsizes)])
         return
